@@ -69,4 +69,25 @@ def c09(tier, seed):
         bounds=dict(BOUNDS, retry_rounds="bounded by the interference budget 3 (quick) / 4 (thorough)"))
 
 
-PROPS = {"C13": c13, "C04": c04, "C05": c05, "C03": c03, "C09": c09}
+def c11(tier, seed):
+    from harness import props
+    text, names = props.gen_panic(tier, "user")
+    return checks.run_mirsym_property(
+        "C11", tier, seed, {"h_panic.rs": text}, codes("M_LEAK", "M_BAD_RELEASE", "M_KEY_MODEL", "M_NOT_ALL_HELD", "M_NOT_HELD_IN_SECTION"),
+        assumptions=sys_assumptions + ["user code panics at a symbolic choice of critical sections (one site per call); quiescent environment with symbolic pre-state"],
+        bounds=BOUNDS, per_entry_expect=lambda e: ("9003", "9004"))
+
+
+def c12(tier, seed):
+    from harness import props
+    fixed = seed if tier == "quick" else None
+    t1, n1 = props.gen_panic(tier, "fault", fixed_seed=fixed)
+    t2, n2 = props.gen_panic(tier, "evil", kinds=lambda sh: sh.kind not in ("single_m", "single_r"), fixed_seed=seed)
+    return checks.run_mirsym_property(
+        "C12", tier, seed, {"h_fault.rs": t1, "h_evil.rs": t2},
+        codes("M_LEAK", "M_BAD_RELEASE", "M_NO_PANIC", "M_FAULTED_USABLE", "M_KEY_MODEL", "M_HELD_AFTER_ERR", "M_SELF_WAIT"),
+        assumptions=sys_assumptions + ["one-shot fault: exactly one raw operation (symbolic index over every operation the call issues, including those in rollback and unwind handlers) panics instead of acting; persistent faults: one lock with a fault class of tests/evil_*.rs plus optionally a second lock whose release panics"],
+        bounds=BOUNDS, per_entry_expect=lambda e: ("9003", "9004"))
+
+
+PROPS = {"C13": c13, "C11": c11, "C12": c12, "C04": c04, "C05": c05, "C03": c03, "C09": c09}
